@@ -77,7 +77,10 @@ func (e *Extractor) clone() *Extractor {
 		pptxReader:   e.pptxReader,
 		htmlReader:   e.htmlReader,
 		epubReader:   e.epubReader,
-		ownsReader:   e.ownsReader,
+		// A derived extractor borrows a reader its parent has already opened: the parent stays
+		// the owner, so a terminal operation on the derived extractor neither closes the parent's
+		// handle nor makes the parent's own Close fail with "file already closed".
+		ownsReader:   false,
 		readerOpened: e.readerOpened,
 		options:      e.options.clone(),
 		err:          e.err,
